@@ -382,6 +382,19 @@ template <typename C> struct ScriptCb
     }
 };
 
+// the same scripted decision from a callback whose result type is not bool (a C-style callback returning int: 0 stops, anything else goes on)
+template <typename C> struct ScriptCbInt
+{
+    std::vector<bool> script;
+    int operator()(C const& c)
+    {
+        std::size_t n = c.results().size();
+        bool r = (n >= 1 && n - 1 < script.size()) ? script[n - 1] : true;
+        g_ctx->cbs.push_back(Sx::list({Sx::num(n), Sx::num(r ? 1 : 0)}));
+        return r ? 2 + static_cast<int>(n) : 0;
+    }
+};
+
 #ifdef VERIF_MPI
 // the MPI drivers' default callback type around the built-in callback, or a scripted decision
 template <typename C> struct MpiBuiltinCb
@@ -441,7 +454,7 @@ template <typename T> struct Spec
     bool force_acc = false;
     Integrand<T> f; Map<T> map;
     bool builtin = true; int mode = 0; T target = T(); std::vector<bool> script;
-    std::string filename; bool keepfile = false; bool cbbase = false; bool cbref = false; int subcomm = 0; int ofmt = 0; bool iexc = false; int coutfmt = 0; bool churn = false; bool reuse = false; bool rbbase = false; bool noseek = false;
+    std::string filename; bool keepfile = false; bool cbbase = false; bool cbref = false; int subcomm = 0; int ofmt = 0; bool iexc = false; int coutfmt = 0; bool churn = false; bool reuse = false; bool rbbase = false; bool noseek = false; bool cbint = false;
 };
 
 #ifdef VERIF_MPI
@@ -726,6 +739,7 @@ template <typename T> Sx run_case(std::string const& cmd, Sx const& a)
     sp.reuse = num("reuse", 0) != 0;
     sp.rbbase = num("rbbase", 0) != 0;
     sp.noseek = num("noseek", 0) != 0;
+    sp.cbint = num("cbint", 0) != 0;
     // the state the program left std::cout in before it handed control to the library (restored when the case ends)
     struct CoutGuard
     {
@@ -746,7 +760,7 @@ template <typename T> Sx run_case(std::string const& cmd, Sx const& a)
     {
         using C = PChk<T>;
         C chk = hep::make_plain_chkpt<T, script_engine>(script_engine(pos0));
-        BuiltinCb<C> bcb{hep::callback<C>(modes[sp.mode & 3], sp.filename, sp.target), sp.mode, sp.filename, sp.keepfile, sp.cbref}; ScriptCb<C> scb{sp.script};
+        BuiltinCb<C> bcb{hep::callback<C>(modes[sp.mode & 3], sp.filename, sp.target), sp.mode, sp.filename, sp.keepfile, sp.cbref}; ScriptCb<C> scb{sp.script}; ScriptCbInt<C> scbi{sp.script};
         BuiltinCb<C, hep::plain_chkpt<T>> bbb{hep::callback<hep::plain_chkpt<T>>(modes[sp.mode & 3], sp.filename, sp.target), sp.mode, sp.filename, sp.keepfile, sp.cbref};
         auto kept1 = mk_int1<T>(sp); auto kept0 = mk_int0<T>(sp);
         result = run_ops<T>(sp, ops, chk, [&](std::vector<std::size_t> const& calls, C const& c) -> C {
@@ -756,8 +770,8 @@ template <typename T> Sx run_case(std::string const& cmd, Sx const& a)
             std::uint64_t const own_before = i1.function().own_calls + i0.function().own_calls;
             std::uint64_t const before = g_ctx->idx;
             C r = (sp.builtin && sp.cbbase) ? (with_dists ? hep::plain(i1, calls, c, bbb) : hep::plain(i0, calls, c, bbb))
-                : with_dists ? (sp.builtin ? hep::plain(i1, calls, c, bcb) : hep::plain(i1, calls, c, scb))
-                : (sp.builtin ? hep::plain(i0, calls, c, bcb) : hep::plain(i0, calls, c, scb));
+                : with_dists ? (sp.builtin ? hep::plain(i1, calls, c, bcb) : sp.cbint ? hep::plain(i1, calls, c, scbi) : hep::plain(i1, calls, c, scb))
+                : (sp.builtin ? hep::plain(i0, calls, c, bcb) : sp.cbint ? hep::plain(i0, calls, c, scbi) : hep::plain(i0, calls, c, scb));
             check_function_state(i1.function().own_calls + i0.function().own_calls - own_before, g_ctx->idx - before);
             return r; },
             [&](Spec<T>& my, std::vector<std::size_t> const& calls, C const& c) {
@@ -777,7 +791,7 @@ template <typename T> Sx run_case(std::string const& cmd, Sx const& a)
         C chk = ck.at(0).is_sym("pdf")
             ? hep::make_vegas_chkpt<T, script_engine>(make_pdf<T>(ck.at(1).N_(), ck.at(2).N_(), floats<T>(ck.at(3))), static_cast<T>(ck.at(4).F_()), script_engine(pos0))
             : hep::make_vegas_chkpt<T, script_engine>(static_cast<std::size_t>(ck.at(1).N_()), static_cast<T>(ck.at(2).F_()), script_engine(pos0));
-        BuiltinCb<C> bcb{hep::callback<C>(modes[sp.mode & 3], sp.filename, sp.target), sp.mode, sp.filename, sp.keepfile, sp.cbref}; ScriptCb<C> scb{sp.script};
+        BuiltinCb<C> bcb{hep::callback<C>(modes[sp.mode & 3], sp.filename, sp.target), sp.mode, sp.filename, sp.keepfile, sp.cbref}; ScriptCb<C> scb{sp.script}; ScriptCbInt<C> scbi{sp.script};
         BuiltinCb<C, hep::vegas_chkpt<T>> bbb{hep::callback<hep::vegas_chkpt<T>>(modes[sp.mode & 3], sp.filename, sp.target), sp.mode, sp.filename, sp.keepfile, sp.cbref};
         auto kept1 = mk_int1<T>(sp); auto kept0 = mk_int0<T>(sp);
         result = run_ops<T>(sp, ops, chk, [&](std::vector<std::size_t> const& calls, C const& c) -> C {
@@ -793,8 +807,8 @@ template <typename T> Sx run_case(std::string const& cmd, Sx const& a)
             std::uint64_t const own_before = i1.function().own_calls + i0.function().own_calls;
             std::uint64_t const before = g_ctx->idx;
             C r = (sp.builtin && sp.cbbase) ? (with_dists ? hep::vegas(i1, calls, c, bbb) : hep::vegas(i0, calls, c, bbb))
-                : with_dists ? (sp.builtin ? hep::vegas(i1, calls, c, bcb) : hep::vegas(i1, calls, c, scb))
-                : (sp.builtin ? hep::vegas(i0, calls, c, bcb) : hep::vegas(i0, calls, c, scb));
+                : with_dists ? (sp.builtin ? hep::vegas(i1, calls, c, bcb) : sp.cbint ? hep::vegas(i1, calls, c, scbi) : hep::vegas(i1, calls, c, scb))
+                : (sp.builtin ? hep::vegas(i0, calls, c, bcb) : sp.cbint ? hep::vegas(i0, calls, c, scbi) : hep::vegas(i0, calls, c, scb));
             check_function_state(i1.function().own_calls + i0.function().own_calls - own_before, g_ctx->idx - before);
             return r; },
             [&](Spec<T>& my, std::vector<std::size_t> const& calls, C const& c) {
@@ -814,7 +828,7 @@ template <typename T> Sx run_case(std::string const& cmd, Sx const& a)
         C chk = ck.at(0).is_sym("weights")
             ? hep::make_multi_channel_chkpt<T, script_engine>(floats<T>(ck.at(1)), static_cast<T>(ck.at(2).F_()), static_cast<T>(ck.at(3).F_()), script_engine(pos0))
             : hep::make_multi_channel_chkpt<T, script_engine>(static_cast<T>(ck.at(1).F_()), static_cast<T>(ck.at(2).F_()), script_engine(pos0));
-        BuiltinCb<C> bcb{hep::callback<C>(modes[sp.mode & 3], sp.filename, sp.target), sp.mode, sp.filename, sp.keepfile, sp.cbref}; ScriptCb<C> scb{sp.script};
+        BuiltinCb<C> bcb{hep::callback<C>(modes[sp.mode & 3], sp.filename, sp.target), sp.mode, sp.filename, sp.keepfile, sp.cbref}; ScriptCb<C> scb{sp.script}; ScriptCbInt<C> scbi{sp.script};
         BuiltinCb<C, hep::multi_channel_chkpt<T>> bbb{hep::callback<hep::multi_channel_chkpt<T>>(modes[sp.mode & 3], sp.filename, sp.target), sp.mode, sp.filename, sp.keepfile, sp.cbref};
         auto kept1 = mk_mc1<T>(sp); auto kept0 = mk_mc0<T>(sp);
         result = run_ops<T>(sp, ops, chk, [&](std::vector<std::size_t> const& calls, C const& c) -> C {
@@ -825,8 +839,8 @@ template <typename T> Sx run_case(std::string const& cmd, Sx const& a)
             std::uint64_t const before = g_ctx->idx;
             std::uint64_t const map_before = g_ctx->map_calls, own_map_before = i1.map().own_calls + i0.map().own_calls;
             C r = (sp.builtin && sp.cbbase) ? (with_dists ? hep::multi_channel(i1, calls, c, bbb) : hep::multi_channel(i0, calls, c, bbb))
-                : with_dists ? (sp.builtin ? hep::multi_channel(i1, calls, c, bcb) : hep::multi_channel(i1, calls, c, scb))
-                : (sp.builtin ? hep::multi_channel(i0, calls, c, bcb) : hep::multi_channel(i0, calls, c, scb));
+                : with_dists ? (sp.builtin ? hep::multi_channel(i1, calls, c, bcb) : sp.cbint ? hep::multi_channel(i1, calls, c, scbi) : hep::multi_channel(i1, calls, c, scb))
+                : (sp.builtin ? hep::multi_channel(i0, calls, c, bcb) : sp.cbint ? hep::multi_channel(i0, calls, c, scbi) : hep::multi_channel(i0, calls, c, scb));
             check_function_state(i1.function().own_calls + i0.function().own_calls - own_before, g_ctx->idx - before);
             if (i1.map().own_calls + i0.map().own_calls - own_map_before != g_ctx->map_calls - map_before)
                 g_ctx->cbs.push_back(Sx::list({Sx::sym("map_object_not_invoked"), Sx::num(i1.map().own_calls + i0.map().own_calls - own_map_before), Sx::num(g_ctx->map_calls - map_before)}));
